@@ -9,6 +9,10 @@ use rusqlite::{ToSql, types::FromSql};
 use serde::{Deserialize, Serialize};
 use speedy::{Context, Readable, Writable};
 
+/// Upper bound on what a hand-written decoder pre-allocates from a peer-supplied length field.
+/// Collections still grow to whatever the input really contains.
+pub(crate) const MAX_DECODE_PREALLOC: usize = 1024;
+
 #[derive(
     Copy, Clone, Debug, Default, Ord, PartialOrd, Eq, PartialEq, Hash, Serialize, Deserialize,
 )]
